@@ -253,6 +253,31 @@ def evaluate(text: str):
     nf = spacing_nf(out)
     if nf:
         res["fails"]["spacing"] = sorted({r for r, _ in nf})
+    # "the rebuilt text" is whatever rebuild() returns, also when the same parsed document is
+    # rendered again (preview, then save): a later rendering that differs is judged as well
+    try:
+        again = src.rebuild()
+        if again == out:
+            again = src.rebuild()
+    except Exception as exc:  # noqa: BLE001
+        res["fails"].setdefault("raises", f"{type(exc).__name__} on repeated rebuild: {exc}")
+        again = out
+    if again != out:
+        res["output_again"] = again
+        if not cstread.error_free(again):
+            res["fails"].setdefault("output-parses", again)
+        else:
+            code_again, inter_again = sequences(cstread.strip_formals_trailing_commas(again))
+            if norm_tokens(code_in) != norm_tokens(code_again):
+                res["fails"].setdefault("tokens", f"repeated rebuild: {norm_tokens(code_in)} -> {norm_tokens(code_again)}")
+            na = [x for x in norm_interleaved(inter_again) if not (x[0] == "t" and x[1] in DELIMITERS)]
+            if na != ni and "tokens" not in res["fails"]:
+                res["fails"].setdefault("comments", "comment-changed-on-repeated-rebuild")
+            nf2 = spacing_nf(again)
+            if nf2:
+                res["fails"]["spacing"] = sorted(set(res["fails"].get("spacing", [])) | {r + "@repeated-rebuild" for r, _ in nf2 if r not in {q for q, _ in nf}})
+                if not res["fails"]["spacing"]:
+                    del res["fails"]["spacing"]
     if line_level_comments(text):
         try:
             out2 = parse(out).rebuild()
